@@ -434,7 +434,11 @@ class Printer:
         if not paren and self.rng.random() < self.redundant:
             paren = True
         if paren:
-            return ['('] + self.raw(e, True) + [')']
+            # any number of pairs (`C05_parse_printTop`: `ex e` redundant pairs)
+            k = 1
+            while k < 4 and self.rng.random() < self.redundant * 0.6:
+                k += 1
+            return ['('] * k + self.raw(e, True) + [')'] * k
         return self.raw(e, open_right)
 
     def raw(self, e, open_right):
